@@ -5,6 +5,7 @@ package main
 
 import (
 	"math/rand"
+	"os"
 	"sort"
 	"strings"
 )
@@ -57,7 +58,7 @@ var optNamePool = []string{
 	"color", "no-color", "no-dry-run", "no-v", "no-verbose", "no", "no-",
 }
 var exoticNamePool = []string{"é", "日", "\U0001F600", "n.m", "k:1", "2", "a1", "X", "Ver", "-", "é2", "日本"}
-var cmdNamePool = []string{"log", "show", "run", "sub", "list", "add", "rm", "x", "ver", "get", "put", "o", "verbose", "help2"}
+var cmdNamePool = []string{"log", "show", "run", "sub", "list", "add", "rm", "x", "ver", "get", "put", "o", "verbose", "help2", "Log", "RUN"}
 var envNamePool = []string{"VERIF_E1", "VERIF_E2", "VERIF_E3", "VERIF_E4"}
 
 var wordPool = []string{"foo", "bar", "hello", "a", "b", "x", "log", "show", "sub", "list", "v", "verbose", "1", "42", "word", "a b", "help",
@@ -72,6 +73,11 @@ var kvPool = []string{"k=v", "a=b", "k=", "=v", "=", "k=a=b", "key=value with sp
 var rangePool = []string{"1..3", "-2..2", "3..1", "1..1", "1..", "..3", "1...3", "a..b", "0..10", "9223372036854775805..9223372036854775807", "1..2..3"}
 var weirdPool = []string{"", "-", "--", "---", "-=", "--=", "--=x", "-=x", "=", "a=b", "--a=b=c", "-\n", "a\nb", "\xff", "\xe2\x82", "\xed\xa0\x80",
 	"--\xff", "-\xffz", " ", "-- ", " --", "-é", "--é=日", "-日本", "\x00", "-\x00", "--a\x00b"}
+
+func init() {
+	// a positional spelled exactly like the running program (`man man`): a token like any other
+	wordPool = append(wordPool, os.Args[0], os.Args[0])
+}
 
 func (g *Gen) shuffleStrings(l []string) []string {
 	out := append([]string{}, l...)
@@ -164,6 +170,7 @@ func (g *Gen) genOpt(used map[string]bool) OptDef {
 		o.ArgName = []string{"file", "n", "k=v"}[g.r.Intn(3)]
 	}
 	o.UseVar = g.pct(40)
+	o.PreSet = o.UseVar && (o.Kind == KMap || o.Kind == KStrRep) && g.pct(35)
 	return o
 }
 
@@ -177,6 +184,9 @@ func copyUsed(m map[string]bool) map[string]bool {
 
 func (g *Gen) genCmd(name string, depth int, usedOpts map[string]bool, reserved map[string]bool) *CmdDef {
 	c := &CmdDef{Name: name, UnknownMode: g.pickInt(g.UModes)}
+	if depth > 0 && g.pct(10) {
+		c.SelfName = "disp-" + name
+	}
 	if c.UnknownMode >= 0 && g.pct(15) {
 		c.UModeFirst = 1 + g.r.Intn(3)
 	}
@@ -265,6 +275,7 @@ func collectOptNames(c *CmdDef, into map[string]bool) {
 func (g *Gen) GenProg() *ProgDef {
 	p := &ProgDef{Mode: g.pickInt(g.Modes), Env: map[string]string{}}
 	p.MapLower = g.pct(10)
+	p.HelpEarly = g.pct(12)
 	if g.pct(15) {
 		p.ModeFirst = 1 + g.r.Intn(3)
 	}
@@ -497,6 +508,11 @@ func (g *Gen) GenArgv(p *ProgDef) []string {
 			}
 			attach := g.pct(40)
 			val := g.valueFor(o.Kind)
+			if len(o.Valid) > 0 && g.pct(45) {
+				// a listed value, or one that differs from a listed value by white space or case only
+				v := o.Valid[g.r.Intn(len(o.Valid))]
+				val = []string{v, v, " " + v, v + "\n", v + "\t ", strings.ToUpper(v), "  " + v + " "}[g.r.Intn(7)]
+			}
 			if o.Kind <= KIncr && !g.pct(18) {
 				attach = false
 			}
